@@ -72,6 +72,7 @@ def run(chk):
                           replay=dict(meta=meta, clause=verdict, at=l, event=ev, plan=doc["plan"]))
     if first_ok is not None:
         realexec.selftest(chk, "C13", first_ok)
+    realexec.report_failed_runs(chk, "C13", metas)
     suitetrace.run(chk, "C13")      # every computation of the repository's own tests, judged by the same monitor
     chk.extra["executors"] = {e: sum(1 for m in metas if m["executor"] == e) for e in set(m["executor"] for m in metas)}
 
